@@ -211,6 +211,19 @@ def no_else_after_return(tree) -> int:
     return count
 
 
+def swap_compares(tree) -> int:
+    """`a == b` -> `b == a` (also !=, is, is not) when one side is a constant / name / attribute chain (no evaluation-order question)."""
+    def simple(e):
+        return isinstance(e, (ast.Constant, ast.Name)) or (isinstance(e, ast.Attribute) and simple(e.value))
+
+    n = 0
+    for c in ast.walk(tree):
+        if isinstance(c, ast.Compare) and len(c.ops) == 1 and isinstance(c.ops[0], (ast.Eq, ast.NotEq, ast.Is, ast.IsNot)) and (simple(c.left) or simple(c.comparators[0])):
+            c.left, c.comparators = c.comparators[0], [c.left]
+            n += 1
+    return n
+
+
 def all_three(tree) -> int:
     return invert_branches(tree) + rename_locals(tree) + insert_noops(tree)
 
@@ -219,11 +232,15 @@ def all_six(tree) -> int:
     return no_else_after_return(tree) + hoist_call_args(tree) + annotate_assigns(tree) + invert_branches(tree) + rename_locals(tree) + insert_noops(tree)
 
 
+def all_seven(tree) -> int:
+    return swap_compares(tree) + all_six(tree)
+
+
 def all_five(tree) -> int:
     return hoist_call_args(tree) + annotate_assigns(tree) + invert_branches(tree) + rename_locals(tree) + insert_noops(tree)
 
 
-TRANSFORMS = {"rename": rename_locals, "invert": invert_branches, "noops": insert_noops, "all": all_three, "annotate": annotate_assigns, "hoist": hoist_call_args, "all5": all_five, "noelse": no_else_after_return, "all6": all_six}
+TRANSFORMS = {"rename": rename_locals, "invert": invert_branches, "noops": insert_noops, "all": all_three, "annotate": annotate_assigns, "hoist": hoist_call_args, "all5": all_five, "noelse": no_else_after_return, "all6": all_six, "swapcmp": swap_compares, "all7": all_seven}
 
 
 def refactored_copy(root: str = "/repo", transform=rename_locals) -> tuple[str, int]:
